@@ -338,10 +338,7 @@ def run(sc, chooser=None, raise_plan=None, keep_trace=False):
 
                     w.spawn(aborter, f"user{i}-abort")
             else:
-                script = list(rq["script"])
-                if rq.get("start"):
-                    script = [["sleep", rq["start"]]] + script
-                peer = S.RawPeer(w, script, port=PORT)
+                peer = S.RawPeer(w, list(rq["script"]), port=PORT, start=rq.get("start") or 0)
                 out["raw"].append(peer)
                 out["requestors"].append({"raw": peer})
                 w.spawn(peer.run, f"raw-requestor{i}")
